@@ -880,5 +880,6 @@ func main() {
 	transportScenarios(r, thorough)
 	idWrapCases()
 	acksZeroCases()
+	fetchTailCases(thorough)
 	discoverCase(thorough)
 }
